@@ -486,6 +486,57 @@ pub fn targeted_family(k: usize) -> Vec<DiagSpec> {
             }
         }
     }
+    // interacting gadget groups: every hub of one group is adjacent to every hub of the other groups, so each group's
+    // support contains the hubs of the others and fusing one group shrinks the support of the next (2 or 3 groups of
+    // 1..3 gadgets, each group optionally with one plain support spider that carries an output)
+    let leafph = [[(1i16, 4i16), (1, 4), (1, 4)], [(1, 4), (3, 4), (1, 2)], [(-1, 4), (1, 1), (1, 4)]];
+    let mut groupings: Vec<Vec<usize>> = vec![];
+    for ka in 1..=3usize {
+        for kb in 1..=3usize {
+            if ka + kb > 2 {
+                groupings.push(vec![ka, kb]);
+            }
+        }
+    }
+    groupings.push(vec![2, 2, 2]);
+    groupings.push(vec![2, 1, 2]);
+    for sizes in &groupings {
+        for plain in 0..(1u32 << sizes.len()) {
+            for phs in &leafph {
+                let mut d = DiagSpec::empty();
+                let mut hubs: Vec<Vec<u8>> = vec![];
+                for (gi, &kg) in sizes.iter().enumerate() {
+                    let mut hs = vec![];
+                    for j in 0..kg {
+                        let h = d.add(1, (0, 1));
+                        let l = d.add(1, phs[(j + gi) % 3]);
+                        d.edges.push((h, l, true));
+                        hs.push(h);
+                    }
+                    if (plain >> gi) & 1 == 1 {
+                        let x = d.add(1, [(0, 1), (1, 4), (1, 2)][gi % 3]);
+                        for &h in &hs {
+                            d.edges.push((h, x, true));
+                        }
+                        let b = d.add(0, (0, 1));
+                        d.edges.push((x, b, false));
+                        d.outputs.push(b);
+                    }
+                    hubs.push(hs);
+                }
+                for a in 0..hubs.len() {
+                    for b in a + 1..hubs.len() {
+                        for &u in &hubs[a] {
+                            for &w in &hubs[b] {
+                                d.edges.push((u, w, true));
+                            }
+                        }
+                    }
+                }
+                out.push(d);
+            }
+        }
+    }
     out
 }
 
